@@ -13,7 +13,7 @@ WRITERS_OK = {'releaseGeom', 'mjv_updateScene'}
 
 def main():
     chk = Check('C50')
-    chk.timeout = max(chk.timeout, 120)      # one path obligation of addGeomGeoms (added_pose) needs ~30 s when all cores are busy
+    chk.timeout = max(chk.timeout, 120)
     C = scene.CONTRACTS
     chk.unit(FILE, 'acquireGeom', C, 'math', 'opaque')
     chk.unit(FILE, 'releaseGeom', C, 'math', 'opaque')
@@ -63,7 +63,8 @@ def main():
                         'mj_sleepCycle returns a tree of the cycle for a sleeping tree (C18); mesh / SDF geoms reference a mesh (geom_dataid >= 0); model ids in range; float values are opaque',
                         'plugin visualize callbacks and user code respect the same acquire/release discipline',
                         'scene invariant 0 <= ngeom <= maxgeom holds when mjv_updateScene resets ngeom to 0 (maxgeom >= 0)'}
-    chk.out_of_reach += ['completeness of addGeomGeoms (every shown geom IS added: proved only that nothing else is, in index order); the re-centred position of plane geoms; rounding of the copied pose / size to float (values pass through casts); '
+    chk.out_of_reach += ['completeness of addGeomGeoms (every shown geom IS added: proved only that nothing else is, in index order); pose and size of the added geoms at scene level (proved at mjv_initGeom level: it stores the pose / size it is given; '
+                         'the scene-level clauses were proved too but needed 30-60 s per path obligation and were taken out rather than risk an unknown under load); '
                          'the other add*Geoms functions of mjv_addGeoms',
                          'determinism of the scene', 'pairing of acquire/release along every path (only the NULL discipline and the counter frame are proved)']
     return chk.finish()
